@@ -296,11 +296,13 @@ def build_policy(p):
             actions=[build_elem(e) for e in p['actions']],
             context={k: build_attrval(a) for k, a in p['context']},
             description=p.get('desc'))
+    # element collections are given as tuples for a fifth of the policies (any iterable of elements is a valid definition)
+    seq = tuple if (len(p['subjects']) + 3 * len(p['actions']) + len(repr(p['uid']))) % 5 == 0 else list
     return cls(p['uid'],
-               subjects=[build_elem(e) for e in p['subjects']],
+               subjects=seq(build_elem(e) for e in p['subjects']),
                effect=p['effect'],
-               resources=[build_elem(e) for e in p['resources']],
-               actions=[build_elem(e) for e in p['actions']],
+               resources=seq(build_elem(e) for e in p['resources']),
+               actions=seq(build_elem(e) for e in p['actions']),
                context={k: build_attrval(a) for k, a in p['context']},
                description=p.get('desc'))
 
